@@ -218,6 +218,62 @@ fn run_style(c: &StyleCase) -> CaseResult {
     Ok(v)
 }
 
+fn decode_style(u: &mut FuzzInput) -> StyleCase {
+    let cluster = |u: &mut FuzzInput| u.pick(&['#', '>', '-', ' ', '\u{2588}', '\u{e9}', '\u{4e16}', '\u{1F600}', '\u{300}', '\u{200b}']);
+    let template = |u: &mut FuzzInput| -> String {
+        let mut t = String::new();
+        for _ in 0..u.n(6) {
+            match u.n(7) {
+                0 => t.push_str(&(0..u.n(4)).map(|_| u.pick(&['a', ' ', '[', ']', '/', ':', '\t'])).collect::<String>()),
+                1 => t.push('\n'),
+                2 => t.push_str(u.pick(&["{x:y}", "}", "{bar:99999}", "{ck}"])),
+                _ => {
+                    let key = c10::DOCUMENTED[u.n(27)];
+                    t.push('{');
+                    t.push_str(key);
+                    if u.bool() {
+                        t.push(':');
+                        t.push_str(u.pick(&["", "<", "^", ">"]));
+                        if u.n(3) > 0 {
+                            t.push_str(&[u.n(29), u.n(299), 1000, 65535][u.n(3)].to_string());
+                        }
+                        if u.bool() {
+                            t.push('!');
+                        }
+                        if u.n(3) == 0 {
+                            t.push_str(".red/blue");
+                        }
+                    }
+                    t.push('}');
+                }
+            }
+        }
+        t
+    };
+    let mut calls = vec![];
+    for _ in 0..=u.n(4) {
+        calls.push(match u.n(12) {
+            0..=2 => BCall::WithTemplate(template(u)),
+            3 | 4 => BCall::Template(template(u)),
+            5 | 6 => BCall::TickChars((0..u.n(5)).map(|_| cluster(u)).collect()),
+            7 | 8 => BCall::TickStrings((0..u.n(4)).map(|_| (0..u.n(2)).map(|_| cluster(u)).collect()).collect()),
+            9..=11 => BCall::ProgressChars((0..u.n(6)).map(|_| cluster(u)).collect()),
+            _ => BCall::WithKey,
+        });
+    }
+    let (len, pos) = match u.n(6) {
+        0 | 1 | 2 => {
+            let l = u.n(49) as u64;
+            (Some(l), u.n(l as usize + 2) as u64)
+        }
+        3 => (Some(u.u64()), u.u64()),
+        4 => (None, u.u64()),
+        5 => (Some(u64::MAX), u64::MAX),
+        _ => (Some(0), 0),
+    };
+    StyleCase { calls, len, pos, cols: 1 + u.n(198) as u16, ticks: u.n(11) as u8, finish: u.bool(), msg: u.short(8), advance_ms: [0u64, 1, 4999, 3_600_000, u32::MAX as u64 * 1000][u.n(4)] }
+}
+
 pub fn property() -> Property {
     let w = default_workers();
     Property {
@@ -237,6 +293,7 @@ pub fn property() -> Property {
             signature: no_signature,
             essential: &["builder_rejected", "documented_rejection", "custom_table_accepted", "rendered", "template_error"],
             workers: w,
+            decode: Some(decode_style),
         })],
     }
 }
